@@ -19,7 +19,7 @@ from xparse import walk, norm
 import vexpr
 
 FEATURES = ['std', 'libm', 'vec8', 'vec16', 'vec32', 'vec64', 'rgb', 'rgba', 'uv', 'uvw']
-TRIALS = 1500
+TRIALS = 3000
 PRIMS = {'f64', 'f32', 'u8', 'u16', 'u32', 'u64', 'usize', 'i8', 'i16', 'i32', 'i64', 'isize', 'bool'}
 
 
@@ -228,10 +228,18 @@ def struct_gens(exp):
 PRELUDE = r'''
 // mode 0: small dyadic values in [-3, 3]; mode 1: mostly 0 / 1 / -1 (reaches special-case branches and antecedents such as
 // "the last row is (0,0,0,1)"); mode 2: like mode 0, with every 4x4 matrix made affine
-pub struct Rng(pub u64, pub u8);
+// mode 3: every value repeats (possibly negated) one of the last values with probability 1/2 (equal end points, parallel / opposite vectors, symmetric matrices)
+pub struct Rng(pub u64, pub u8, pub [f64; 4]);
 impl Rng { pub fn next(&mut self) -> u64 { self.0 = self.0.wrapping_mul(6364136223846793005).wrapping_add(1442695040888963407); (self.0 >> 33) } }
 pub trait Gen: Sized { fn gen(r: &mut Rng) -> Self; fn konst(_v: i32) -> Self { unimplemented!() } }
 fn gen_f(r: &mut Rng) -> f64 {
+    let v = gen_f0(r);
+    let k = (r.next() % 4) as usize;
+    if r.1 == 3 && r.next() % 2 == 0 { let w = r.2[k]; return if r.next() % 4 == 0 { -w } else { w }; }
+    r.2[k] = v;
+    v
+}
+fn gen_f0(r: &mut Rng) -> f64 {
     if r.1 == 1 { match r.next() % 8 { 0 | 1 | 2 => 0.0, 3 | 4 => 1.0, 5 => -1.0, 6 => 2.0, _ => 0.5 } } else { let v = ((r.next() % 13) as f64 - 6.0) / 2.0; if r.next() % 8 == 0 { v * 4.0 } else { v } }
 }
 impl Gen for f64 { fn gen(r: &mut Rng) -> f64 { gen_f(r) } fn konst(v: i32) -> f64 { v as f64 } }
@@ -254,6 +262,9 @@ def render_body(exp, specs, layouts, paths=None):
         uses = ['use super::vek::mat::repr_c::%s::*;' % layout, 'use super::vek::vec::repr_c::*;', 'use super::vek::quaternion::repr_c::*;',
                 'use super::vek::geom::repr_c::*;', 'use super::vek::bezier::repr_c::*;', 'use super::vek::transform::repr_c::*;',
                 'use super::vek::transition::*;', 'use super::vek::ops::*;', 'use core::ops::*;', 'use super::*;']
+        for n_ in (2, 3, 4):      # the aliases bezier.rs / geom.rs use
+            uses.append('use super::vek::mat::repr_c::row_major::Mat%d as Rows%d;' % (n_, n_))
+            uses.append('use super::vek::mat::repr_c::column_major::Mat%d as Cols%d;' % (n_, n_))
         pm = re.search(r'mat::repr_c::(row_major|column_major)::mat(\d)', (paths or [''] * len(specs))[k])
         if pm:
             other = 'column_major' if pm.group(1) == 'row_major' else 'row_major'
@@ -261,7 +272,7 @@ def render_body(exp, specs, layouts, paths=None):
         lines = ['pub mod f%d {' % k] + ['    ' + x for x in uses]
         lines.append('    pub fn run(n: u32) -> Vec<(String, String, String, String)> {')
         lines.append('        let mut out = Vec::new();')
-        lines.append('        for t in 0..n { let mut r = Rng(0x9E3779B97F4A7C15u64 ^ (t as u64 + 1).wrapping_mul(0xD1B54A32D192ED03), (t % 3) as u8);')
+        lines.append('        for t in 0..n { let mut r = Rng(0x9E3779B97F4A7C15u64 ^ (t as u64 + 1).wrapping_mul(0xD1B54A32D192ED03), (t % 4) as u8, [0.0, 1.0, -1.0, 0.5]);')
         names, ins, outs = [], [], []
         vn = {}
         if sp['recv']:
@@ -526,6 +537,13 @@ def attempt(prop, violations, anchors, exp, repo, workdir, timeout=420):
                               reason='the result differs from HEAD on this input, but the precondition / antecedent of the refuted clause could not be evaluated on it'
                                      + ((' (' + sp['eval_dropped'] + ')') if sp.get('eval_dropped') else '')))
         else:
+            rws = rows.get(q, [])
+            n_req = len([1 for r_ in rws if '0' not in r_[3] and 'p' not in r_[3] and 'u' not in r_[3]])
+            evaluated = bool(sp.get('eval')) and bool(rws) and any(ch in '01' for r_ in rws[:50] for ch in r_[5])
+            no_panic_gap = not any((r_[1] == 'PANIC') != (r_[2] == 'PANIC') for r_ in rws)
             notes.append(dict(tag=v['tag'], found=False, call=call,
-                              reason='%d pseudo-random small dyadic inputs: no input refutes the clause / no difference from HEAD' % TRIALS))
+                              indistinguishable=bool(evaluated and len(rws) == TRIALS and n_req >= 100 and no_panic_gap),
+                              trials=len(rws), trials_with_requires_true=n_req,
+                              reason='%d pseudo-random inputs (generic, special-value, affine and repeated-value modes): no input refutes a clause, '
+                                     'no difference from HEAD' % TRIALS))
     return notes
